@@ -519,6 +519,106 @@ Proof.
     replace (Nat.eqb k t1) with false by (symmetry; apply Nat.eqb_neq; exact N1).
     replace (Nat.eqb k t2) with false by (symmetry; apply Nat.eqb_neq; exact N2). split; reflexivity.
 Qed.
+
+(* Axle, end to end, for any list of terminals (repetitions allowed) *)
+Lemma wr_idem {A} (s o : option A) : wr (wr s o) o = wr s o.
+Proof. destruct o; reflexivity. Qed.
+Lemma fold_put_state_slots (o : option ds) (ts : list nat) : forall (w : world) k, (forall i, In i ts -> (i < List.length w)%nat) ->
+  slot_s (fold_left (fun w' i => put_state w' i o) ts w) k = (if existsb (Nat.eqb k) ts then wr (slot_s w k) o else slot_s w k)
+  /\ slot_c (fold_left (fun w' i => put_state w' i o) ts w) k = slot_c w k
+  /\ List.length (fold_left (fun w' i => put_state w' i o) ts w) = List.length w.
+Proof.
+  induction ts as [|i r IH]; intros w k H; cbn [fold_left existsb]; [repeat split|].
+  destruct (put_state_slots w i o k (H i (or_introl eq_refl))) as (A1 & A2 & A3).
+  destruct (IH (put_state w i o) k) as (B1 & B2 & B3).
+  { intros j Hj. rewrite (proj2 (proj2 (put_state_slots w i o j (H i (or_introl eq_refl))))). apply H. right. exact Hj. }
+  rewrite B1, B2, B3, A1, A2, A3. repeat split.
+  destruct (Nat.eqb k i); cbn [orb]; [|reflexivity].
+  destruct (existsb (Nat.eqb k) r); [apply wr_idem|reflexivity].
+Qed.
+Lemma fold_put_cmd_slots (o : option dc) (ts : list nat) : forall (w : world) k, (forall i, In i ts -> (i < List.length w)%nat) ->
+  slot_c (fold_left (fun w' i => put_cmd w' i o) ts w) k = (if existsb (Nat.eqb k) ts then wr (slot_c w k) o else slot_c w k)
+  /\ slot_s (fold_left (fun w' i => put_cmd w' i o) ts w) k = slot_s w k
+  /\ List.length (fold_left (fun w' i => put_cmd w' i o) ts w) = List.length w.
+Proof.
+  induction ts as [|i r IH]; intros w k H; cbn [fold_left existsb]; [repeat split|].
+  destruct (put_cmd_slots w i o k (H i (or_introl eq_refl))) as (A1 & A2 & A3).
+  destruct (IH (put_cmd w i o) k) as (B1 & B2 & B3).
+  { intros j Hj. rewrite (proj2 (proj2 (put_cmd_slots w i o j (H i (or_introl eq_refl))))). apply H. right. exact Hj. }
+  rewrite B1, B2, B3, A1, A2, A3. repeat split.
+  destruct (Nat.eqb k i); cbn [orb]; [|reflexivity].
+  destruct (existsb (Nat.eqb k) r); [apply wr_idem|reflexivity].
+Qed.
+Lemma existsb_in (k : nat) (ts : list nat) : In k ts -> existsb (Nat.eqb k) ts = true.
+Proof. intros H. apply existsb_exists. exists k. split; [exact H|apply Nat.eqb_refl]. Qed.
+Lemma existsb_notin (k : nat) (ts : list nat) : ~ In k ts -> existsb (Nat.eqb k) ts = false.
+Proof.
+  intros H. destruct (existsb (Nat.eqb k) ts) eqn:E; [|reflexivity]. exfalso. apply H.
+  apply existsb_exists in E. destruct E as (x & Hx & Ex). apply Nat.eqb_eq in Ex. subst x. exact Hx.
+Qed.
+Theorem C08_axle_end_to_end (w : world) (ts : list nat) : (forall i, In i ts -> (i < List.length w)%nat) ->
+  let w' := axle_update w ts in
+  run_fn c (g_axle_update c) (m_axle (map (fun i => (slot_s w i, slot_c w i)) ts))
+    [("get:inputs:State", MArr (map (m_rd VS) (map (state_get w) ts))); ("get:inputs:Command", MArr (map (m_rd VC) (map (cmd_get w) ts)))]
+  = Some (Ok (m_axle (map (fun i => (slot_s w' i, slot_c w' i)) ts), MOk MTup0))
+  /\ forall k, ~ In k ts -> slot_s w' k = slot_s w k /\ slot_c w' k = slot_c w k.
+Proof.
+  intros H w'. subst w'. rewrite axle_update_local. cbv zeta.
+  set (st := axle_state (map (state_get w) ts)). set (cm := axle_cmd (map (cmd_get w) ts)).
+  set (w1 := fold_left (fun w' i => put_state w' i st) ts w).
+  assert (H1 : forall i, In i ts -> (i < List.length w1)%nat).
+  { intros i Hi. unfold w1. rewrite (proj2 (proj2 (fold_put_state_slots st ts w i H))). apply H. exact Hi. }
+  assert (HS : forall k, slot_s (fold_left (fun w' i => put_cmd w' i cm) ts w1) k = (if existsb (Nat.eqb k) ts then wr (slot_s w k) st else slot_s w k)
+                      /\ slot_c (fold_left (fun w' i => put_cmd w' i cm) ts w1) k = (if existsb (Nat.eqb k) ts then wr (slot_c w k) cm else slot_c w k)).
+  { intros k. destruct (fold_put_cmd_slots cm ts w1 k H1) as (A1 & A2 & _). destruct (fold_put_state_slots st ts w k H) as (B1 & B2 & _).
+    fold w1 in B1, B2. rewrite A1, A2, B1, B2. split; reflexivity. }
+  split.
+  - rewrite C08_gen_axle_update. fold st cm. rewrite map_map. cbn [fst snd].
+    erewrite map_ext_in; [reflexivity|].
+    intros i Hi. cbv beta. destruct (HS i) as (A & B). rewrite A, B, (existsb_in i ts Hi). reflexivity.
+  - intros k Hk. destruct (HS k) as (A & B). rewrite A, B, (existsb_notin k ts Hk). split; reflexivity.
+Qed.
+
+(* Differential, end to end *)
+Theorem C08_diff_end_to_end (w : world) s1 s2 sm d : s1 <> s2 -> s1 <> sm -> s2 <> sm ->
+  (s1 < List.length w)%nat -> (s2 < List.length w)%nat -> (sm < List.length w)%nat ->
+  let w' := diff_update w s1 s2 sm d in
+  run_fn c (g_diff_update c) (m_diff_in d (slot_s w s1) (slot_c w s1) (slot_s w s2) (slot_c w s2) (slot_s w sm) (slot_c w sm))
+    [("get:side1:State", m_rd VS (state_get w s1)); ("get:side2:State", m_rd VS (state_get w s2)); ("get:sum:State", m_rd VS (state_get w sm))]
+  = Some (Ok (m_diff d (slot_s w' s1) (slot_c w' s1) (slot_s w' s2) (slot_c w' s2) (slot_s w' sm) (slot_c w' sm), MOk MTup0))
+  /\ (forall k, slot_c w' k = slot_c w k)
+  /\ forall k, k <> s1 -> k <> s2 -> k <> sm -> slot_s w' k = slot_s w k.
+Proof.
+  intros N12 N1m N2m H1 H2 Hm w'. subst w'. rewrite diff_update_local. cbv zeta.
+  set (st := diff_states d (state_get w s1) (state_get w s2) (state_get w sm)).
+  assert (HS : forall k,
+    slot_s (put_state (put_state (put_state w sm (snd st)) s1 (fst (fst st))) s2 (snd (fst st))) k
+    = (if Nat.eqb k s2 then wr (slot_s w k) (snd (fst st)) else if Nat.eqb k s1 then wr (slot_s w k) (fst (fst st))
+       else if Nat.eqb k sm then wr (slot_s w k) (snd st) else slot_s w k)
+    /\ slot_c (put_state (put_state (put_state w sm (snd st)) s1 (fst (fst st))) s2 (snd (fst st))) k = slot_c w k).
+  { intros k.
+    destruct (put_state_slots w sm (snd st) k Hm) as (A1 & A2 & A3).
+    assert (H1' : (s1 < List.length (put_state w sm (snd st)))%nat) by (rewrite A3; exact H1).
+    destruct (put_state_slots _ s1 (fst (fst st)) k H1') as (B1 & B2 & B3).
+    assert (H2' : (s2 < List.length (put_state (put_state w sm (snd st)) s1 (fst (fst st))))%nat) by (rewrite B3, A3; exact H2).
+    destruct (put_state_slots _ s2 (snd (fst st)) k H2') as (C1 & C2 & _).
+    rewrite C1, C2, B1, B2, A1, A2. split; [|reflexivity].
+    destruct (Nat.eqb_spec k s2) as [E2|M2]; destruct (Nat.eqb_spec k s1) as [E1|M1]; destruct (Nat.eqb_spec k sm) as [Em|Mm]; try reflexivity;
+      exfalso; congruence. }
+  split; [|split].
+  - rewrite C08_gen_diff_update. fold st.
+    destruct (HS s1) as (S1 & C1). destruct (HS s2) as (S2 & C2). destruct (HS sm) as (Sm & Cm).
+    rewrite S1, C1, S2, C2, Sm, Cm. rewrite !Nat.eqb_refl.
+    replace (Nat.eqb s1 s2) with false by (symmetry; apply Nat.eqb_neq; exact N12).
+    replace (Nat.eqb sm s2) with false by (symmetry; apply Nat.eqb_neq; congruence).
+    replace (Nat.eqb sm s1) with false by (symmetry; apply Nat.eqb_neq; congruence).
+    reflexivity.
+  - intros k. apply (HS k).
+  - intros k M1 M2 Mm. destruct (HS k) as (A & _). rewrite A.
+    replace (Nat.eqb k s2) with false by (symmetry; apply Nat.eqb_neq; exact M2).
+    replace (Nat.eqb k s1) with false by (symmetry; apply Nat.eqb_neq; exact M1).
+    replace (Nat.eqb k sm) with false by (symmetry; apply Nat.eqb_neq; exact Mm). reflexivity.
+Qed.
 End C08Devices.
 Print Assumptions C08_gen_invert_update.
 Print Assumptions invert_update_local.
@@ -557,3 +657,10 @@ Print Assumptions put_cmd_slots.
 Print Assumptions two_terminal_slots.
 Print Assumptions C08_invert_end_to_end.
 Print Assumptions C08_gear_end_to_end.
+Print Assumptions wr_idem.
+Print Assumptions fold_put_state_slots.
+Print Assumptions fold_put_cmd_slots.
+Print Assumptions existsb_in.
+Print Assumptions existsb_notin.
+Print Assumptions C08_axle_end_to_end.
+Print Assumptions C08_diff_end_to_end.
